@@ -262,7 +262,13 @@ pub fn run(args: &Args) -> Report {
             // ------------------------------------------------------------ xof_many
             _ => {
                 let sub = if randomize { rng.usize_below(1 << 24) } else { (idx / 40) as usize };
-                let n = sub % 36; // 0 goes through the wrapper's guard
+                let mut n = sub % 36; // 0 goes through the wrapper's guard
+                // one call in 400 produces a megabyte (size thresholds inside a kernel, e.g. another
+                // store instruction for large outputs), at every output alignment
+                let large = !cfg!(miri) && rng.chance(1, 400);
+                if large {
+                    n = 16384 + rng.usize_below(48);
+                }
                 let block_len = ((sub / 36) % 65) as u8;
                 let (counter, cname) = counter_class(rng, n as u64);
                 let flags = rng.below(256) as u8;
@@ -273,7 +279,7 @@ pub fn run(args: &Args) -> Report {
                 for i in 0..n {
                     want.extend_from_slice(&specmodel::words_to_bytes(&specmodel::compress(&cvw, blockb[..].try_into().unwrap(), counter + i as u64, block_len as u32, flags as u32)));
                 }
-                let pl_out = if guard { place(rng, 1) } else { Place::Mis(0) };
+                let pl_out = if large { Place::Mis(*rng.pick(&[0usize, 32, 16, 48, 8, 1, 33])) } else if guard { place(rng, 1) } else { Place::Mis(0) };
                 let mut out = Buf::new(64 * n, pl_out, seed ^ 0x51);
                 let mut block = Buf::with(&blockb, if guard { place(rng, 1) } else { Place::Mis(0) }, seed);
                 block.readonly();
